@@ -190,7 +190,10 @@ fn only_tuple_whitespace(a: &str, b: &str) -> bool {
     let norm = |s: &str| -> Vec<String> { s.lines().map(|l| l.trim().to_string()).filter(|l| !l.is_empty()).collect() };
     let broken_tuple = b.lines().any(|l| {
         let t = l.trim_end();
-        t.ends_with('(') || t.contains(": (") || t.contains("= (")
+        // an opening parenthesis that is still open at the end of the line, followed by a comma
+        // separated continuation: `-> ({ .. },` / `: (` / `= (` / a bare `(`
+        let open = t.matches('(').count() > t.matches(')').count();
+        t.ends_with('(') || t.contains(": (") || t.contains("= (") || (open && t.ends_with(','))
     });
     broken_tuple && norm(a) == norm(b)
 }
